@@ -11,6 +11,15 @@
 //! inject seeded small delays at register / write / receive / deliver and (b) hash the order of the
 //! probe events of each scenario (distinct interleavings observed are reported as evidence).
 //!
+//! Two further families run first (they are short):
+//! * `bigbatch`: `batch_json` with MORE requests than the blocking client's worker pool (64): 65, 66, 70, 100, 128,
+//!   129, 200, 257 and random sizes up to 300, on all three clients. For these the fake server is arrival-driven
+//!   (`serve_arrival`: answer what has arrived, shuffled inside small windows, never hold answers back while
+//!   waiting for requests), so it cannot deadlock against a bounded pool; async/WebSocket are also served collect-all.
+//! * `forward`: caller-chosen ids through `AsyncClient::forward_message*` (only that client has the API): forwards
+//!   reusing the id of an in-flight call / in-flight forward (must be refused, write nothing, leave the in-flight
+//!   call's response alone), with never-used ids, id 0, and ids of completed calls (must work) (`run_fwd`, `judge_fwd`).
+//!
 //! The verdict is computed offline over the recorded history of a scenario (`judge`).
 
 use crate::common::*;
@@ -195,6 +204,10 @@ mod imp {
         n: usize,
         /// false: collect all N requests, then reply; true: reply to a step as soon as its request is there
         eager: bool,
+        /// Some(w): no pre-computed script; the fake server answers the requests AS THEY ARRIVE, in a shuffled
+        /// order within windows of at most w arrived requests, and never waits for a request while it holds
+        /// unanswered ones (so it cannot deadlock against a bounded worker pool). `steps` is empty then.
+        arrival: Option<usize>,
         steps: Vec<Step>,
         apis: Vec<Api>,
         /// how reply frames are put on the wire: 0 one write per frame, 1 all in one write, 2 seeded splits
@@ -204,15 +217,15 @@ mod imp {
     }
 
     impl Scn {
-        fn identity(&self) -> (Kind, Mode, usize, bool, &[Step], &[Api], u8) {
-            (self.kind, self.mode, self.n, self.eager, &self.steps, &self.apis, self.wmode)
+        fn identity(&self) -> (Kind, Mode, usize, bool, Option<usize>, &[Step], &[Api], u8) {
+            (self.kind, self.mode, self.n, self.eager, self.arrival, &self.steps, &self.apis, self.wmode)
         }
         fn to_json(&self, seed: u64) -> Value {
             json!({
                 "seed": seed, "family": self.family, "index": self.index, "client": self.kind.name(), "mode": self.mode.name(),
-                "n": self.n, "eager": self.eager, "wmode": self.wmode, "delays": self.delays, "salt": self.salt,
-                "steps": self.steps.iter().map(|s| format!("{s:?}")).collect::<Vec<_>>(),
-                "apis": self.apis.iter().map(|s| format!("{s:?}")).collect::<Vec<_>>(),
+                "n": self.n, "eager": self.eager, "arrival_window": self.arrival, "wmode": self.wmode, "delays": self.delays, "salt": self.salt,
+                "steps": self.steps.iter().take(80).map(|s| format!("{s:?}")).collect::<Vec<_>>(),
+                "apis": self.apis.iter().take(70).map(|s| format!("{s:?}")).collect::<Vec<_>>(),
             })
         }
     }
@@ -632,6 +645,8 @@ mod imp {
         sentinel_ctr: u64,
         notify_seq: u64,
         nonce: u64,
+        /// caller-chosen "never used" ids of the forward scenarios: 2^44 + counter
+        fresh_ctr: u64,
     }
 
     fn mk_frame(id: u64, notify: bool, query: &[u8], body: &Value) -> Vec<u8> {
@@ -753,8 +768,123 @@ mod imp {
         }
     }
 
+    /// Book one request frame that reached the fake server into the history; returns its slot.
+    fn record_req(conn: &mut Conn, hist: &mut Hist, f: oracle::Frame, id_of: &mut [Option<u64>], query_of: &mut [Vec<u8>]) -> Result<usize, String> {
+        conn.requests += 1;
+        let parsed: Option<(usize, String)> = serde_json::from_slice::<Value>(&f.body).ok().and_then(|v| Some((v.get("slot")?.as_u64()? as usize, v.get("tok")?.as_str()?.to_string())));
+        let dup_id = !conn.ids_seen.insert(f.header.id);
+        conn.max_id = conn.max_id.max(f.header.id);
+        match parsed {
+            Some((slot, tok)) if slot < id_of.len() && hist.tokens[slot] == tok && id_of[slot].is_none() => {
+                id_of[slot] = Some(f.header.id);
+                query_of[slot] = f.query.clone();
+                hist.reqs.push(Req { id: f.header.id, notify: f.header.notify, slot, tok, dup_id });
+                Ok(slot)
+            }
+            _ => {
+                hist.unparsed_requests.push(format!("id {} notify {} query {:?} body {}", f.header.id, f.header.notify, String::from_utf8_lossy(&f.query), hex_trunc(&f.body, 80)));
+                Err("a request that does not belong to this scenario reached the fake server".into())
+            }
+        }
+    }
+
+    static ARRIVAL_QUIET_FLUSHES: AtomicU64 = AtomicU64::new(0);
+    static ARRIVAL_WINDOWS: AtomicU64 = AtomicU64::new(0);
+
+    /// Arrival-driven fake server (`Scn::arrival`): every request is answered once it has arrived, in a shuffled
+    /// order within a window of at most `w` arrived requests. A window is flushed as soon as it is full, all N
+    /// requests are in, or nothing more arrives for a moment: the server never holds back answers while waiting
+    /// for requests, so a client that keeps only a bounded number of calls in flight (the blocking client's
+    /// batch worker pool) cannot deadlock against it, however it deals its requests out to its workers.
+    fn serve_arrival(conn: &mut Conn, ctx: &mut Ctx, scn: &Scn, hist: &mut Hist, rng: &mut Rng, sentinel: u64, w: usize) -> Result<(), String> {
+        let n = scn.n;
+        let mut id_of: Vec<Option<u64>> = vec![None; n];
+        let mut query_of: Vec<Vec<u8>> = vec![vec![]; n];
+        let mut answered: Vec<usize> = vec![];
+        let mut buffered: Vec<usize> = vec![];
+        let mut out: Vec<Vec<u8>> = vec![];
+        let deadline = Instant::now() + REQ_WINDOW;
+        let mut cur_w = 1 + rng.usize_below(w.max(1));
+        let mut partial = false;
+        loop {
+            if hist.reqs.len() == n && buffered.is_empty() {
+                break;
+            }
+            if buffered.len() < cur_w && hist.reqs.len() < n {
+                match conn.srv.recv(ctx.rt, (Instant::now() + Duration::from_millis(40)).min(deadline))? {
+                    Some(f) => {
+                        let slot = record_req(conn, hist, f, &mut id_of, &mut query_of)?;
+                        buffered.push(slot);
+                        continue;
+                    }
+                    None if buffered.is_empty() => {
+                        drain_results(ctx, scn, hist, false);
+                        if all_results_in(scn, hist) {
+                            // the caller is done although requests are missing: it gave up on them
+                            partial = true;
+                            break;
+                        }
+                        if Instant::now() >= deadline {
+                            return Err(format!("only {} of {} requests reached the arrival-driven fake server within {} s (all that arrived were answered)", hist.reqs.len(), n, REQ_WINDOW.as_secs()));
+                        }
+                        continue;
+                    }
+                    None => {
+                        ARRIVAL_QUIET_FLUSHES.fetch_add(1, Ordering::Relaxed);
+                    }
+                }
+            }
+            ARRIVAL_WINDOWS.fetch_add(1, Ordering::Relaxed);
+            rng.shuffle(&mut buffered);
+            for s in buffered.drain(..) {
+                let id = id_of[s].unwrap();
+                if hist.reqs.iter().any(|r| r.slot == s && r.notify != 0) {
+                    continue;
+                }
+                match rng.below(24) {
+                    0 => {
+                        let uid = id + (1u64 << 32);
+                        out.push(mk_frame(uid, false, b"/c04/unknown", &json!({"id": uid, "tok": format!("unk-{}-{}", scn.index, hist.sent.len()), "k": "unk"})));
+                        hist.sent.push(Sent { step: Step::Unknown(Unk::Alias32(s)), id: uid, notify: false, seq: 0, inflight: false });
+                    }
+                    1 => {
+                        let r = rng.below(1 << 20) as u32;
+                        let uid = (1u64 << 40) + r as u64;
+                        out.push(mk_frame(uid, false, b"/c04/unknown", &json!({"id": uid, "tok": format!("unk-{}-{}", scn.index, hist.sent.len()), "k": "unk"})));
+                        hist.sent.push(Sent { step: Step::Unknown(Unk::Huge(r)), id: uid, notify: false, seq: 0, inflight: false });
+                    }
+                    2 if scn.kind == Kind::W => {
+                        ctx.notify_seq += 1;
+                        let seq = ctx.notify_seq;
+                        out.push(mk_frame(id, true, b"/c04/push", &json!({"id": id, "seq": seq, "tok": format!("ntf-{seq}"), "k": "notify"})));
+                        hist.sent.push(Sent { step: Step::Notify(Some(s)), id, notify: true, seq, inflight: true });
+                    }
+                    _ => {}
+                }
+                out.push(mk_frame(id, false, &query_of[s], &json!({"id": id, "tok": hist.tokens[s], "k": "resp"})));
+                hist.sent.push(Sent { step: Step::Resp(s), id, notify: false, seq: 0, inflight: true });
+                answered.push(s);
+                if rng.chance(1, 16) {
+                    let d = *rng.pick(&answered);
+                    let did = id_of[d].unwrap();
+                    out.push(mk_frame(did, false, &query_of[d], &json!({"id": did, "tok": hist.tokens[d], "k": "dup"})));
+                    hist.sent.push(Sent { step: Step::Dup(d), id: did, notify: false, seq: 0, inflight: false });
+                }
+            }
+            conn.srv.send(ctx.rt, &mut out, scn.wmode, rng)?;
+            cur_w = 1 + rng.usize_below(w.max(1));
+        }
+        hist.partial = partial;
+        out.push(mk_frame(sentinel, false, b"/c04/sentinel", &json!({"id": sentinel, "tok": "sentinel", "k": "unk"})));
+        conn.srv.send(ctx.rt, &mut out, 0, rng)?;
+        Ok(())
+    }
+
     /// The fake server's part of a scenario.
     fn serve(conn: &mut Conn, ctx: &mut Ctx, scn: &Scn, hist: &mut Hist, rng: &mut Rng, sentinel: u64) -> Result<(), String> {
+        if let Some(w) = scn.arrival {
+            return serve_arrival(conn, ctx, scn, hist, rng, sentinel, w);
+        }
         let n = scn.n;
         let mut id_of: Vec<Option<u64>> = vec![None; n];
         let mut query_of: Vec<Vec<u8>> = vec![vec![]; n];
@@ -788,22 +918,7 @@ mod imp {
                     return Err(format!("only {} of {} requests reached the fake server within {} s", hist.reqs.len(), scn.n, REQ_WINDOW.as_secs()));
                 }
             };
-            conn.requests += 1;
-            let parsed: Option<(usize, String)> = serde_json::from_slice::<Value>(&f.body).ok().and_then(|v| Some((v.get("slot")?.as_u64()? as usize, v.get("tok")?.as_str()?.to_string())));
-            let dup_id = !conn.ids_seen.insert(f.header.id);
-            conn.max_id = conn.max_id.max(f.header.id);
-            match parsed {
-                Some((slot, tok)) if slot < id_of.len() && hist.tokens[slot] == tok && id_of[slot].is_none() => {
-                    id_of[slot] = Some(f.header.id);
-                    query_of[slot] = f.query.clone();
-                    hist.reqs.push(Req { id: f.header.id, notify: f.header.notify, slot, tok, dup_id });
-                    Ok(true)
-                }
-                _ => {
-                    hist.unparsed_requests.push(format!("id {} notify {} query {:?} body {}", f.header.id, f.header.notify, String::from_utf8_lossy(&f.query), hex_trunc(&f.body, 80)));
-                    Err("a request that does not belong to this scenario reached the fake server".into())
-                }
-            }
+            record_req(conn, hist, f, id_of, query_of).map(|_| true)
         }
 
         // `partial`: the callers went silent before all N requests were in (for instance a call was refused
@@ -1277,6 +1392,700 @@ mod imp {
         (hash_of(&full), hash_of(&caller))
     }
 
+    // ------------------------------------------------------------------ caller-chosen ids: AsyncClient::forward_message*
+    //
+    // `forward_message` / `forward_message_with_timeout` register the id the CALLER put into the message (a proxy
+    // relaying downstream frames over one shared upstream client). Only `AsyncClient` has this API (the blocking
+    // and the WebSocket client register counter ids only). A forward whose id equals an in-flight id must be
+    // refused WITHOUT disturbing the in-flight call and without writing; ids that are not in flight (never used,
+    // or used by a call that has completed) must work like any other call.
+
+    #[derive(Clone, Copy, PartialEq, Eq, Hash, Debug)]
+    enum FId {
+        /// an id nobody has used on this connection
+        Fresh,
+        /// id 0 (the counter starts at 1)
+        Zero,
+        /// the id of warm-up call `k` of this scenario, completed before anything else starts
+        Past(usize),
+        /// the id of base call `slot`, in flight (its request has reached the fake server, no answer yet)
+        Collide(usize),
+        /// the id of wave-A forward `j`, in flight
+        CollideFwd(usize),
+        /// the id of op `op` of an earlier wave, completed (or refused) by now
+        Done(usize),
+    }
+
+    #[derive(Clone, Copy, PartialEq, Eq, Hash, Debug)]
+    struct FOp {
+        fid: FId,
+        with_timeout: bool,
+        notify: bool,
+    }
+
+    #[derive(Clone, Debug)]
+    struct FScn {
+        index: u64,
+        n_warm: usize,
+        base_apis: Vec<Api>,
+        wave_a: Vec<FOp>,
+        wave_b: Vec<FOp>,
+        post: Vec<FOp>,
+        /// answer some of the base calls that no forward collides with BEFORE wave B (their ids are then complete)
+        extras: bool,
+        wmode: u8,
+        salt: u64,
+        delays: bool,
+    }
+
+    impl FScn {
+        fn identity(&self) -> (usize, &[Api], &[FOp], &[FOp], &[FOp], bool, u8) {
+            (self.n_warm, &self.base_apis, &self.wave_a, &self.wave_b, &self.post, self.extras, self.wmode)
+        }
+        fn to_json(&self, seed: u64) -> Value {
+            json!({
+                "seed": seed, "family": "forward", "index": self.index, "client": "async", "n_warm": self.n_warm,
+                "base_apis": self.base_apis.iter().map(|a| format!("{a:?}")).collect::<Vec<_>>(),
+                "wave_a": self.wave_a.iter().map(|a| format!("{a:?}")).collect::<Vec<_>>(),
+                "wave_b": self.wave_b.iter().map(|a| format!("{a:?}")).collect::<Vec<_>>(),
+                "post": self.post.iter().map(|a| format!("{a:?}")).collect::<Vec<_>>(),
+                "extras": self.extras, "wmode": self.wmode, "salt": self.salt, "delays": self.delays,
+            })
+        }
+    }
+
+    #[derive(Clone, Copy, PartialEq, Eq, Debug)]
+    enum OpClass {
+        Warm,
+        Base,
+        /// forward with an id that is not in flight: must go through
+        Free,
+        /// forward (notify = 0) with an in-flight id: must be refused
+        Clash,
+        /// forward of a notify frame carrying an in-flight id: written, no response awaited
+        ClashNotify,
+    }
+
+    #[derive(Clone, Debug)]
+    struct OpInfo {
+        class: OpClass,
+        /// 0 warm-up, 1 base, 2 wave A, 3 wave B, 4 post
+        wave: u8,
+        desc: String,
+        tok: String,
+        /// id the caller chose (forwards) / the id seen on the wire (calls)
+        id: Option<u64>,
+        /// op whose in-flight id a Clash / ClashNotify op reuses
+        target: Option<usize>,
+    }
+
+    #[derive(Clone, Debug)]
+    struct WireReq {
+        id: u64,
+        notify: u8,
+        op: Option<usize>,
+        body_ok: bool,
+        /// number of frames the server had already sent when this one arrived
+        sent_before: usize,
+    }
+
+    struct FHist {
+        ops: Vec<OpInfo>,
+        wire: Vec<WireReq>,
+        /// (id, token, kind) of every frame the fake server sent, in order
+        sent: Vec<(u64, String, &'static str)>,
+        outs: Vec<Option<Res>>,
+        events: Vec<(u8, u64)>,
+        trouble: Option<String>,
+        sentinel_seen: bool,
+        pending_after: Option<usize>,
+    }
+
+    struct FwdRun<'a, 'b> {
+        conn: &'a mut Conn,
+        ctx: &'a mut Ctx<'b>,
+        h: FHist,
+        tx: mpsc::Sender<(usize, Res)>,
+        rx: mpsc::Receiver<(usize, Res)>,
+        rng: Rng,
+        wmode: u8,
+    }
+
+    impl FwdRun<'_, '_> {
+        fn cli(&self) -> AsyncClient {
+            match &self.conn.cli {
+                Cli::A(c) => c.clone(),
+                _ => unreachable!("forward scenarios run on an AsyncClient connection"),
+            }
+        }
+
+        fn add_op(&mut self, class: OpClass, wave: u8, desc: String, id: Option<u64>, target: Option<usize>, scn_index: u64) -> usize {
+            let op = self.h.ops.len();
+            self.ctx.nonce += 1;
+            let tok = format!("f{scn_index}-{op}-{:x}", mix(self.ctx.nonce ^ (op as u64) << 32) & 0xffff_ffff);
+            self.h.ops.push(OpInfo { class, wave, desc, tok, id, target });
+            self.h.outs.push(None);
+            op
+        }
+
+        fn spawn_call(&self, op: usize, api: Api) {
+            let (c, tx) = (self.cli(), self.tx.clone());
+            let body = json!({"tok": self.h.ops[op].tok, "op": op});
+            let path = format!("/c04/f{op}");
+            self.ctx.rt.spawn(async move {
+                let r = match api {
+                    Api::Json => val_res(c.call_json(&path, &body).await),
+                    Api::Msg => {
+                        let bytes = serde_json::to_vec(&body).unwrap();
+                        msg_res(c.call_with_formats_and_timeout(&path, 1, Some(&bytes), 2, API_TIMEOUT).await)
+                    }
+                    _ => val_res(c.call_json_with_timeout(&path, &body, API_TIMEOUT).await),
+                };
+                drop(c);
+                let _ = tx.send((op, r));
+            });
+        }
+
+        fn spawn_forward(&self, op: usize, f: FOp) {
+            let (c, tx) = (self.cli(), self.tx.clone());
+            let body = serde_json::to_vec(&json!({"tok": self.h.ops[op].tok, "op": op})).unwrap();
+            let msg = repe::Message::builder().id(self.h.ops[op].id.unwrap()).notify(f.notify).query_str(&format!("/c04/f{op}")).query_format_code(1).body_bytes(body).body_format_code(2).build();
+            self.ctx.rt.spawn(async move {
+                let r = if f.with_timeout { c.forward_message_with_timeout(&msg, API_TIMEOUT).await } else { c.forward_message(&msg).await };
+                let res = match r {
+                    Ok(Some(m)) => msg_res(Ok(m)),
+                    Ok(None) => Res::NotifyOk,
+                    Err(e) => Res::Err(err_info(&e)),
+                };
+                drop(c);
+                let _ = tx.send((op, res));
+            });
+        }
+
+        fn drain(&mut self) {
+            while let Ok((op, r)) = self.rx.try_recv() {
+                if op < self.h.outs.len() && self.h.outs[op].is_none() {
+                    self.h.outs[op] = Some(r);
+                }
+            }
+        }
+
+        fn on_wire(&self, op: usize) -> bool {
+            self.h.wire.iter().any(|w| w.op == Some(op))
+        }
+
+        /// Read request frames and collect results until every op of `wire` has its frame at the fake server and
+        /// every op of `results` has returned. Stops early when an op of `must_not_write` shows up on the wire
+        /// (that is the evidence the wait was for). Ok(false): the window ran out.
+        fn pump(&mut self, wire: &[usize], results: &[usize], must_not_write: &[usize], window: Duration) -> Result<bool, String> {
+            let until = Instant::now() + window;
+            loop {
+                self.drain();
+                let wire_ok = wire.iter().all(|o| self.on_wire(*o));
+                let res_ok = results.iter().all(|o| self.h.outs[*o].is_some());
+                if wire_ok && res_ok {
+                    return Ok(true);
+                }
+                if wire_ok && must_not_write.iter().any(|o| self.on_wire(*o)) {
+                    return Ok(true);
+                }
+                if Instant::now() >= until {
+                    return Ok(false);
+                }
+                if wire_ok {
+                    if let Ok((op, r)) = self.rx.recv_timeout(Duration::from_millis(1)) {
+                        if op < self.h.outs.len() && self.h.outs[op].is_none() {
+                            self.h.outs[op] = Some(r);
+                        }
+                        continue;
+                    }
+                }
+                // one read attempt (the socket's read timeout is 2 ms on this connection)
+                if let Some(f) = self.conn.srv.recv(self.ctx.rt, Instant::now())? {
+                    self.conn.requests += 1;
+                    let v: Option<Value> = serde_json::from_slice(&f.body).ok();
+                    let op = v.as_ref().and_then(|v| v.get("op")?.as_u64()).map(|o| o as usize).filter(|o| *o < self.h.ops.len());
+                    let tok = v.as_ref().and_then(|v| v.get("tok")?.as_str());
+                    let body_ok = matches!((op, tok), (Some(o), Some(t)) if self.h.ops[o].tok == t) && f.query == format!("/c04/f{}", op.unwrap_or(0)).as_bytes();
+                    if let Some(o) = op {
+                        if matches!(self.h.ops[o].class, OpClass::Warm | OpClass::Base) && self.h.ops[o].id.is_none() {
+                            self.h.ops[o].id = Some(f.header.id);
+                            self.conn.max_id = self.conn.max_id.max(f.header.id);
+                        }
+                    }
+                    self.h.wire.push(WireReq { id: f.header.id, notify: f.header.notify, op, body_ok, sent_before: self.h.sent.len() });
+                    if op.is_none() {
+                        return Err(format!("a frame that does not belong to this scenario reached the fake server: id {} query {:?} body {}", f.header.id, String::from_utf8_lossy(&f.query), hex_trunc(&f.body, 60)));
+                    }
+                }
+            }
+        }
+
+        /// Answer every (non-notify) wire frame of the given ops, in a shuffled order.
+        fn answer(&mut self, ops: &[usize], extras: bool) -> Result<(), String> {
+            let mut frames: Vec<(u64, String)> = vec![];
+            for w in &self.h.wire {
+                if let Some(o) = w.op {
+                    if ops.contains(&o) && w.notify == 0 {
+                        frames.push((w.id, self.h.ops[o].tok.clone()));
+                    }
+                }
+            }
+            self.rng.shuffle(&mut frames);
+            let mut out: Vec<Vec<u8>> = vec![];
+            for (i, (id, tok)) in frames.iter().enumerate() {
+                if extras && self.rng.chance(1, 6) {
+                    let uid = (1u64 << 40) + self.rng.below(1 << 20);
+                    out.push(mk_frame(uid, false, b"/c04/unknown", &json!({"id": uid, "tok": "unk-fwd", "k": "unk"})));
+                    self.h.sent.push((uid, "unk-fwd".into(), "unk"));
+                }
+                out.push(mk_frame(*id, false, b"/c04/fwd", &json!({"id": id, "tok": tok, "k": "resp"})));
+                self.h.sent.push((*id, tok.clone(), "resp"));
+                if extras && self.rng.chance(1, 8) {
+                    let (did, dtok) = frames[self.rng.usize_below(i + 1)].clone();
+                    out.push(mk_frame(did, false, b"/c04/fwd", &json!({"id": did, "tok": dtok, "k": "dup"})));
+                    self.h.sent.push((did, dtok, "dup"));
+                }
+            }
+            let mut rng = self.rng.fork(7);
+            self.conn.srv.send(self.ctx.rt, &mut out, self.wmode, &mut rng)
+        }
+    }
+
+    const FWD_WINDOW: Duration = Duration::from_secs(8);
+
+    fn run_fwd(conn: &mut Conn, ctx: &mut Ctx, fs: &FScn) -> FHist {
+        let rng = Rng::new(ctx.seed ^ fs.salt.rotate_left(23) ^ 0xF0C04);
+        LOG.lock().unwrap_or_else(|e| e.into_inner()).clear();
+        SALT.store(fs.salt, Ordering::Relaxed);
+        DELAYS.store(fs.delays, Ordering::Relaxed);
+        ctx.sentinel_ctr += 1;
+        let sentinel = SENT_BASE + ctx.sentinel_ctr;
+        if let Srv::Tcp { s, .. } = &conn.srv {
+            s.set_read_timeout(Some(Duration::from_millis(2))).ok();
+        }
+        let (tx, rx) = mpsc::channel();
+        let h = FHist { ops: vec![], wire: vec![], sent: vec![], outs: vec![], events: vec![], trouble: None, sentinel_seen: false, pending_after: None };
+        let mut run = FwdRun { conn, ctx, h, tx, rx, rng, wmode: fs.wmode };
+        let r = fwd_phases(&mut run, fs, sentinel);
+        if let Err(e) = r {
+            run.h.trouble = Some(e);
+        }
+        if run.h.trouble.is_some() {
+            // release whoever still waits
+            run.conn.srv.close(run.ctx.rt);
+            let until = Instant::now() + Duration::from_secs(3);
+            while run.h.outs.iter().any(|o| o.is_none()) && Instant::now() < until {
+                run.drain();
+                std::thread::sleep(Duration::from_millis(2));
+            }
+        } else {
+            let until = Instant::now() + Duration::from_secs(10);
+            while SENTINEL_SEEN.load(Ordering::SeqCst) != sentinel && Instant::now() < until {
+                std::thread::sleep(Duration::from_micros(50));
+            }
+            run.h.sentinel_seen = SENTINEL_SEEN.load(Ordering::SeqCst) == sentinel;
+            if run.h.sentinel_seen && run.h.outs.iter().all(|o| o.is_some()) {
+                run.h.pending_after = Some(run.cli().verif_pending_len());
+            }
+        }
+        DELAYS.store(false, Ordering::Relaxed);
+        run.h.events = std::mem::take(&mut *LOG.lock().unwrap_or_else(|e| e.into_inner()));
+        run.conn.scenarios += 1;
+        run.h
+    }
+
+    /// Err: harness trouble or a window ran out (the scenario is cut short and judged on what was observed).
+    fn fwd_phases(run: &mut FwdRun, fs: &FScn, sentinel: u64) -> Result<(), String> {
+        let short = |what: &str| format!("{what} not complete inside {} s", FWD_WINDOW.as_secs());
+        // warm-up: calls that complete before anything else; their ids are "already completed" ids
+        let warm: Vec<usize> = (0..fs.n_warm).map(|k| run.add_op(OpClass::Warm, 0, format!("warm-up call {k}"), None, None, fs.index)).collect();
+        for o in &warm {
+            run.spawn_call(*o, Api::JsonT);
+        }
+        if !run.pump(&warm, &[], &[], FWD_WINDOW)? {
+            return Err(short("warm-up requests"));
+        }
+        run.answer(&warm, false)?;
+        if !run.pump(&[], &warm, &[], FWD_WINDOW)? {
+            return Err(short("warm-up results"));
+        }
+        // base calls: counter ids, left in flight
+        let base: Vec<usize> = (0..fs.base_apis.len()).map(|i| run.add_op(OpClass::Base, 1, format!("base call {i} ({:?})", fs.base_apis[i]), None, None, fs.index)).collect();
+        for (i, o) in base.iter().enumerate() {
+            run.spawn_call(*o, fs.base_apis[i]);
+        }
+        if !run.pump(&base, &[], &[], FWD_WINDOW)? {
+            return Err(short("base requests"));
+        }
+        let mut zero_used = false;
+        // ids of the forwards that must go through and may still be in flight (waves A and B overlap)
+        let mut used: Vec<u64> = vec![];
+        let mut all_fwd: Vec<usize> = vec![];
+        let mut answered_early: Vec<usize> = vec![];
+        for (wave_no, wave) in [(2u8, &fs.wave_a), (3u8, &fs.wave_b), (4u8, &fs.post)] {
+            if wave_no == 3 && fs.extras {
+                // base calls no forward of wave B refers to may complete now
+                let free: Vec<usize> = base.iter().enumerate().filter(|(i, _)| !fs.wave_b.iter().any(|f| f.fid == FId::Collide(*i))).map(|(_, o)| *o).collect();
+                let some: Vec<usize> = free.into_iter().filter(|_| run.rng.coin()).collect();
+                if !some.is_empty() {
+                    run.answer(&some, true)?;
+                    if !run.pump(&[], &some, &[], FWD_WINDOW)? {
+                        return Err(short("results of base calls answered before wave B"));
+                    }
+                    answered_early = some;
+                }
+            }
+            if wave_no == 4 {
+                // everything in flight is answered now (refused forwards have nothing to answer)
+                let outstanding: Vec<usize> = (0..run.h.ops.len()).filter(|o| !warm.contains(o) && !answered_early.contains(o)).collect();
+                let expect: Vec<usize> = outstanding.iter().copied().filter(|o| matches!(run.h.ops[*o].class, OpClass::Base | OpClass::Free)).collect();
+                run.answer(&outstanding, fs.extras)?;
+                if !run.pump(&[], &expect, &[], CALL_WINDOW)? {
+                    return Err(format!("results of the answered calls/forwards not complete inside {} s", CALL_WINDOW.as_secs()));
+                }
+                // fence: the post wave reuses completed ids, and the fake server may have sent duplicated responses
+                // for them. A duplicate the reader consumes AFTER the id has been registered again would rightly be
+                // delivered to the new call (server misbehaviour, not the client's). So wait until the reader has
+                // gone past everything sent so far (it is sequential): an unknown-id fence frame announced by the
+                // reader's `received` probe.
+                run.ctx.sentinel_ctr += 1;
+                let fence = SENT_BASE + run.ctx.sentinel_ctr;
+                let mut out = vec![mk_frame(fence, false, b"/c04/fence", &json!({"id": fence, "tok": "fence", "k": "unk"}))];
+                let mut rng = run.rng.fork(11);
+                run.conn.srv.send(run.ctx.rt, &mut out, 0, &mut rng)?;
+                run.h.sent.push((fence, "fence".into(), "unk"));
+                let until = Instant::now() + Duration::from_secs(10);
+                while SENTINEL_SEEN.load(Ordering::SeqCst) != fence {
+                    if Instant::now() >= until {
+                        return Err("the fence frame before the post wave was not seen by the client's reader within 10 s".into());
+                    }
+                    std::thread::sleep(Duration::from_micros(50));
+                }
+            }
+            let first_op = run.h.ops.len();
+            if wave_no == 4 {
+                used.clear();
+            }
+            for f in wave.iter() {
+                let (id, class, target): (Option<u64>, OpClass, Option<usize>) = match f.fid {
+                    FId::Fresh => {
+                        run.ctx.fresh_ctr += 1;
+                        (Some((1u64 << 44) + run.ctx.fresh_ctr), OpClass::Free, None)
+                    }
+                    FId::Zero if !zero_used => {
+                        zero_used = true;
+                        (Some(0), OpClass::Free, None)
+                    }
+                    FId::Zero => {
+                        run.ctx.fresh_ctr += 1;
+                        (Some((1u64 << 44) + run.ctx.fresh_ctr), OpClass::Free, None)
+                    }
+                    FId::Past(k) => (run.h.ops[warm[k % warm.len()]].id, OpClass::Free, None),
+                    FId::Collide(i) => (run.h.ops[base[i % base.len()]].id, OpClass::Clash, Some(base[i % base.len()])),
+                    FId::CollideFwd(j) => {
+                        let t = all_fwd.iter().copied().filter(|o| run.h.ops[*o].wave == 2 && run.h.ops[*o].class == OpClass::Free).nth(j);
+                        match t {
+                            Some(t) => (run.h.ops[t].id, OpClass::Clash, Some(t)),
+                            None => {
+                                run.ctx.fresh_ctr += 1;
+                                (Some((1u64 << 44) + run.ctx.fresh_ctr), OpClass::Free, None)
+                            }
+                        }
+                    }
+                    FId::Done(k) => {
+                        // any id used by an earlier op of this scenario: all are complete (or were refused) by now
+                        let cands: Vec<u64> = run.h.ops[..first_op].iter().filter_map(|o| o.id).collect();
+                        (cands.get(k % cands.len().max(1)).copied(), OpClass::Free, None)
+                    }
+                };
+                let Some(id) = id else { return Err("harness: id for a forward is not known".into()) };
+                let (mut id, mut class, mut target) = (id, class, target);
+                if class == OpClass::Free && !f.notify && used.contains(&id) {
+                    // two forwards of one wave must not share an id unless that is the point
+                    run.ctx.fresh_ctr += 1;
+                    id = (1u64 << 44) + run.ctx.fresh_ctr;
+                }
+                if f.notify {
+                    match class {
+                        OpClass::Clash => class = OpClass::ClashNotify,
+                        _ => {
+                            // a notify forward is only interesting with an in-flight id; otherwise make it a plain one
+                            target = None;
+                            class = OpClass::Free;
+                        }
+                    }
+                }
+                let f = FOp { notify: f.notify && class == OpClass::ClashNotify, ..*f };
+                if class == OpClass::Free {
+                    used.push(id);
+                }
+                let o = run.add_op(class, wave_no, format!("{:?} forward{}{}", f.fid, if f.with_timeout { "_with_timeout" } else { "" }, if f.notify { " (notify)" } else { "" }), Some(id), target, fs.index);
+                all_fwd.push(o);
+                run.spawn_forward(o, f);
+            }
+            let ops: Vec<usize> = (first_op..run.h.ops.len()).collect();
+            let writes: Vec<usize> = ops.iter().copied().filter(|o| matches!(run.h.ops[*o].class, OpClass::Free | OpClass::ClashNotify)).collect();
+            let refused: Vec<usize> = ops.iter().copied().filter(|o| run.h.ops[*o].class == OpClass::Clash).collect();
+            let returns: Vec<usize> = ops.iter().copied().filter(|o| matches!(run.h.ops[*o].class, OpClass::Clash | OpClass::ClashNotify)).collect();
+            if !run.pump(&writes, &returns, &refused, FWD_WINDOW)? {
+                return Err(short(&format!("wave {wave_no} (frames of the forwards that must write, results of the forwards that must be refused)")));
+            }
+            if wave_no == 4 {
+                run.answer(&ops, false)?;
+                let expect: Vec<usize> = ops.iter().copied().filter(|o| run.h.ops[*o].class == OpClass::Free).collect();
+                if !run.pump(&[], &expect, &[], CALL_WINDOW)? {
+                    return Err(format!("results of the post-wave forwards not complete inside {} s", CALL_WINDOW.as_secs()));
+                }
+            }
+        }
+        let mut out = vec![mk_frame(sentinel, false, b"/c04/sentinel", &json!({"id": sentinel, "tok": "sentinel", "k": "unk"}))];
+        let mut rng = run.rng.fork(9);
+        run.conn.srv.send(run.ctx.rt, &mut out, 0, &mut rng)?;
+        // a forward that should have been refused but waits for a response is released by the socket closing later
+        Ok(())
+    }
+
+    #[derive(Default)]
+    struct FVerdict {
+        violations: Vec<(String, String)>,
+        inconclusive: Vec<String>,
+        counts: Vec<(String, u64)>,
+        anomalies: bool,
+    }
+
+    fn judge_fwd(h: &FHist, stall_ms: u64) -> FVerdict {
+        let mut v = FVerdict::default();
+        let healthy = h.trouble.is_none() && h.sentinel_seen;
+        let tok_owner: HashMap<&str, usize> = h.ops.iter().enumerate().map(|(i, o)| (o.tok.as_str(), i)).collect();
+        let mut cnt = |k: &str| v.counts.push((k.to_string(), 1));
+        let mut viol: Vec<(String, String)> = vec![];
+        let mut inc: Vec<String> = vec![];
+        let mut anomalies = false;
+        if let Some(t) = &h.trouble {
+            inc.push(format!("forward scenario cut short: {t} (stall {stall_ms} ms)"));
+            anomalies = true;
+        }
+
+        // ids in flight at the same time are distinct on the wire: from the first base request on nothing is
+        // answered until wave B is over, except the base calls answered early (their ids are not reused before wave 4)
+        let mut open: HashMap<u64, usize> = HashMap::new();
+        let mut answered_upto = 0usize;
+        for w in &h.wire {
+            for (id, _, kind) in &h.sent[answered_upto..w.sent_before.min(h.sent.len())] {
+                if *kind == "resp" {
+                    open.remove(id);
+                }
+            }
+            answered_upto = answered_upto.max(w.sent_before.min(h.sent.len()));
+            if w.notify != 0 {
+                continue;
+            }
+            let Some(o) = w.op else { continue };
+            if let Some(prev) = open.insert(w.id, o) {
+                viol.push((
+                    "C04:async:forward:in-flight-id-written-twice".into(),
+                    format!("request id {} reached the fake server for {} while the request of {} with the same id was unanswered: two calls in flight on one connection share an id", w.id, h.ops[o].desc, h.ops[prev].desc),
+                ));
+            }
+            if !w.body_ok {
+                inc.push(format!("frame of {} arrived with an altered query/body", h.ops[o].desc));
+            }
+        }
+
+        for (i, o) in h.ops.iter().enumerate() {
+            let frames: Vec<&WireReq> = h.wire.iter().filter(|w| w.op == Some(i)).collect();
+            let answered = o.id.map(|id| h.sent.iter().any(|s| s.0 == id && s.1 == o.tok && s.2 == "resp")).unwrap_or(false);
+            let clashes: Vec<&OpInfo> = h.ops.iter().filter(|c| c.target == Some(i)).collect();
+            let who = format!("{} (id {:?}, token {})", o.desc, o.id, o.tok);
+            let clash_note = if clashes.is_empty() { String::new() } else { format!("; while it was in flight {} forward(s) reusing its id were issued: [{}]", clashes.len(), clashes.iter().map(|c| c.desc.clone()).collect::<Vec<_>>().join(", ")) };
+            let out = &h.outs[i];
+            let returned_tok = |body: &Value| body.get("tok").and_then(|t| t.as_str()).map(|t| t.to_string());
+            let owner_of = |body: &Value| -> String {
+                match returned_tok(body).as_deref().and_then(|t| tok_owner.get(t)) {
+                    Some(j) => format!("{} (id {:?})", h.ops[*j].desc, h.ops[*j].id),
+                    None => format!("nobody in this scenario (body {body})"),
+                }
+            };
+            match o.class {
+                OpClass::Warm | OpClass::Base | OpClass::Free => {
+                    let kindname = match o.class {
+                        OpClass::Warm => "warmup-call",
+                        OpClass::Base => "inflight-call",
+                        _ => match o.wave {
+                            4 => "forward-with-completed-id",
+                            _ if o.desc.starts_with("Past") => "forward-with-completed-id",
+                            _ => "forward-with-unused-id",
+                        },
+                    };
+                    match out {
+                        Some(Res::Body { hdr, body }) => {
+                            let mut good = returned_tok(body).as_deref() == Some(o.tok.as_str()) && body.get("id").and_then(|x| x.as_u64()) == o.id && o.id.is_some();
+                            if let Some((hid, hn, hec)) = hdr {
+                                good &= Some(*hid) == o.id && *hn == 0 && *hec == 0;
+                            }
+                            if o.class == OpClass::Free && frames.len() != 1 {
+                                good = false;
+                            }
+                            if good {
+                                cnt(&format!("forward_scn_{}_own_response", kindname.replace('-', "_")));
+                                if !clashes.is_empty() {
+                                    cnt("forward_scn_inflight_op_survived_colliding_forward");
+                                }
+                            } else {
+                                anomalies = true;
+                                viol.push((
+                                    format!("C04:async:forward:{kindname}:got-foreign-response"),
+                                    format!("{who} returned header {hdr:?} body {body}, which belongs to {}; its own request reached the server {} time(s){clash_note}", owner_of(body), frames.len()),
+                                ));
+                            }
+                        }
+                        Some(Res::Err(e)) => {
+                            anomalies = true;
+                            if let Some((expected, got)) = e.mismatch {
+                                viol.push((format!("C04:async:forward:{kindname}:got-frame-of-other-id"), format!("{who} failed with ResponseIdMismatch(expected {expected}, got {got}){clash_note}")));
+                            } else if o.class == OpClass::Free && frames.is_empty() && healthy {
+                                viol.push((
+                                    format!("C04:async:forward:{kindname}:refused:{}", e.class),
+                                    format!("{who} was refused with `{}` and wrote nothing although no call with that id was in flight", e.text),
+                                ));
+                            } else if answered && healthy {
+                                viol.push((
+                                    format!("C04:async:forward:{kindname}:failed:{}", e.class),
+                                    format!("{who} failed with `{}` although its request reached the fake server, was answered with its own id and the connection stayed healthy (sentinel seen){clash_note}", e.text),
+                                ));
+                            } else if !clashes.is_empty() && !frames.is_empty() && h.trouble.is_none() && !answered {
+                                // it returned before the server answered anything: nothing but the colliding forward happened
+                                viol.push((
+                                    format!("C04:async:forward:{kindname}:failed:{}", e.class),
+                                    format!("{who} failed with `{}` while it was in flight and before the fake server had answered it{clash_note}", e.text),
+                                ));
+                            } else {
+                                inc.push(format!("{who} failed with `{}` (answered: {answered}, healthy: {healthy})", e.text));
+                            }
+                        }
+                        Some(Res::NotifyOk) => {
+                            anomalies = true;
+                            viol.push((format!("C04:async:forward:{kindname}:returned-no-response"), format!("{who} returned Ok(None) although the message was not a notify")));
+                        }
+                        None => {
+                            anomalies = true;
+                            let id = o.id.unwrap_or(u64::MAX);
+                            let sent_with_id = h.sent.iter().filter(|s| s.0 == id).count();
+                            let received = h.events.iter().filter(|e| e.0 == P_RECEIVED && e.1 == id).count();
+                            let delivered = h.events.iter().filter(|e| e.0 == P_BEFORE_DELIVER && e.1 == id).count();
+                            if answered && h.sentinel_seen && received >= sent_with_id && delivered == 0 {
+                                viol.push((
+                                    format!("C04:async:forward:{kindname}:response-consumed-but-not-delivered"),
+                                    format!("{who}: the reader consumed all {sent_with_id} frame(s) sent with its id without reaching the deliver point, the call cannot receive its response{clash_note}"),
+                                ));
+                            } else if answered && !clashes.is_empty() && delivered > 0 {
+                                // its response was handed to somebody: who returned its token?
+                                let thief = h.outs.iter().enumerate().find(|(j, r)| *j != i && matches!(r, Some(Res::Body { body, .. }) if returned_tok(body).as_deref() == Some(o.tok.as_str())));
+                                match thief {
+                                    Some((j, _)) => viol.push((format!("C04:async:forward:{kindname}:response-went-to-another-call"), format!("{who} never returned; its response was returned by {}{clash_note}", h.ops[j].desc))),
+                                    None => inc.push(format!("{who} produced no result inside the harness bound although the reader delivered {delivered} frame(s) with its id (stall {stall_ms} ms){clash_note}")),
+                                }
+                            } else {
+                                inc.push(format!("{who} produced no result inside the harness bound (answered: {answered}, stall {stall_ms} ms){clash_note}"));
+                            }
+                        }
+                    }
+                }
+                OpClass::Clash => {
+                    if !frames.is_empty() {
+                        anomalies = true;
+                        viol.push((
+                            "C04:async:forward:colliding-id:written-to-wire".into(),
+                            format!("{who} reuses the id of the in-flight {}; it was not refused before writing: {} frame(s) with that id and its token reached the fake server; its outcome: {}", o.target.map(|t| h.ops[t].desc.clone()).unwrap_or_default(), frames.len(), show_res(out)),
+                        ));
+                    }
+                    match out {
+                        Some(Res::Err(e)) => {
+                            cnt("forward_scn_colliding_forward_refused");
+                            cnt(&format!("forward_scn_colliding_forward_refused_with_{}", e.class.replace('.', "_")));
+                        }
+                        Some(Res::Body { hdr, body }) => {
+                            anomalies = true;
+                            viol.push((
+                                "C04:async:forward:colliding-id:accepted".into(),
+                                format!("{who} reuses the id of the in-flight {} and returned a response: header {hdr:?} body {body}, which belongs to {}", o.target.map(|t| h.ops[t].desc.clone()).unwrap_or_default(), owner_of(body)),
+                            ));
+                        }
+                        Some(Res::NotifyOk) => {
+                            anomalies = true;
+                            viol.push(("C04:async:forward:colliding-id:returned-ok-none".into(), format!("{who} reuses an in-flight id, is not a notify, and returned Ok(None)")));
+                        }
+                        None => {
+                            anomalies = true;
+                            if frames.is_empty() {
+                                inc.push(format!("{who} (colliding forward) neither returned nor wrote inside the harness bound (stall {stall_ms} ms)"));
+                            }
+                        }
+                    }
+                }
+                OpClass::ClashNotify => match out {
+                    Some(Res::NotifyOk) if frames.len() == 1 && frames[0].notify == 1 => cnt("forward_scn_notify_forward_with_inflight_id_written"),
+                    other => {
+                        anomalies = true;
+                        inc.push(format!("{who}: notify forward ended with {} and {} frame(s) on the wire", show_res(other), frames.len()));
+                    }
+                },
+            }
+        }
+        if let Some(p) = h.pending_after {
+            if p != 0 {
+                // evidence only: C04 is about correlation, not about leaks
+                cnt("forward_scn_pending_entries_left_after_scenario");
+            }
+        }
+        if !h.sentinel_seen && h.trouble.is_none() && viol.is_empty() {
+            inc.push(format!("forward scenario: sentinel frame not seen by the client's reader within 10 s (stall {stall_ms} ms)"));
+            anomalies = true;
+        }
+        v.violations = viol;
+        v.inconclusive = inc;
+        v.anomalies = anomalies;
+        v
+    }
+
+    fn show_res(o: &Option<Res>) -> String {
+        match o {
+            None => "no result".into(),
+            Some(Res::Body { hdr, body }) => format!("header {hdr:?} body {body}"),
+            Some(Res::Err(e)) => format!("error `{}`", e.text),
+            Some(Res::NotifyOk) => "Ok(None)".into(),
+        }
+    }
+
+    fn random_fscn(index: u64, rng: &mut Rng) -> FScn {
+        let n_warm = 1 + rng.usize_below(3);
+        let base_max = if rng.chance(1, 5) { 12 } else { 5 };
+        let n_base = 1 + rng.usize_below(base_max);
+        let base_apis: Vec<Api> = (0..n_base).map(|_| *rng.pick(&[Api::Json, Api::JsonT, Api::Msg])).collect();
+        let free_id = |rng: &mut Rng| match rng.below(8) {
+            0 => FId::Zero,
+            1 | 2 | 3 => FId::Past(rng.usize_below(n_warm)),
+            _ => FId::Fresh,
+        };
+        let n_a = rng.usize_below(4);
+        let wave_a: Vec<FOp> = (0..n_a).map(|_| FOp { fid: free_id(rng), with_timeout: rng.coin(), notify: false }).collect();
+        let mut wave_b: Vec<FOp> = vec![];
+        let clash_max = if rng.chance(1, 4) { 6 } else { 3 };
+        let n_clash = 1 + rng.usize_below(clash_max);
+        for _ in 0..n_clash {
+            let fid = if n_a > 0 && rng.chance(1, 4) { FId::CollideFwd(rng.usize_below(n_a)) } else { FId::Collide(rng.usize_below(n_base)) };
+            wave_b.push(FOp { fid, with_timeout: rng.coin(), notify: rng.chance(1, 8) });
+        }
+        for _ in 0..rng.usize_below(4) {
+            wave_b.push(FOp { fid: free_id(rng), with_timeout: rng.coin(), notify: false });
+        }
+        rng.shuffle(&mut wave_b);
+        let n_post = 1 + rng.usize_below(4);
+        let post: Vec<FOp> = (0..n_post).map(|_| FOp { fid: if rng.chance(3, 4) { FId::Done(rng.usize_below(64)) } else { FId::Fresh }, with_timeout: rng.coin(), notify: false }).collect();
+        FScn { index, n_warm, base_apis, wave_a, wave_b, post, extras: rng.coin(), wmode: rng.below(3) as u8, salt: rng.next_u64(), delays: rng.chance(3, 4) }
+    }
+
     // ------------------------------------------------------------------ scenario generators
 
     fn next_permutation(p: &mut [usize]) -> bool {
@@ -1393,7 +2202,32 @@ mod imp {
             _ => 1 + rng.usize_below(n.min(24)),
         };
         add_extras(&mut steps, kind, &call_slots, extras, rng);
-        Scn { family: "random", index, kind, mode, n, eager: rng.chance(2, 5), steps, apis, wmode: rng.below(3) as u8, salt: rng.next_u64(), delays: rng.chance(4, 5) }
+        Scn { family: "random", index, kind, mode, n, eager: rng.chance(2, 5), arrival: None, steps, apis, wmode: rng.below(3) as u8, salt: rng.next_u64(), delays: rng.chance(4, 5) }
+    }
+
+    /// Sizes above the blocking client's batch worker pool (64): more requests than workers, so every worker
+    /// handles several requests one after the other.
+    const BIG_BATCH_SIZES: [usize; 8] = [65, 66, 70, 100, 128, 129, 200, 257];
+    const BIG_BATCH_MAX: usize = 300;
+
+    /// A batch call with more requests than the blocking client's worker pool can have in flight. The blocking
+    /// client is always served arrival-driven (a collect-all server would deadlock against the pool); the async
+    /// and the WebSocket client (no pool) are served collect-all with a scripted order, or arrival-driven.
+    fn bigbatch_scn(index: u64, kind: Kind, n: usize, rng: &mut Rng) -> Scn {
+        let apis = vec![Api::JsonT; n];
+        let collect_all = kind != Kind::B && rng.coin();
+        let (arrival, steps, eager) = if collect_all {
+            let slots: Vec<usize> = (0..n).collect();
+            let mut order = slots.clone();
+            rng.shuffle(&mut order);
+            let mut steps: Vec<Step> = order.into_iter().map(Step::Resp).collect();
+            let extras = rng.usize_below(12);
+            add_extras(&mut steps, kind, &slots, extras, rng);
+            (None, steps, false)
+        } else {
+            (Some(*rng.pick(&[1usize, 2, 3, 4, 8, 16, 24, 48])), vec![], true)
+        };
+        Scn { family: "bigbatch", index, kind, mode: Mode::Batch, n, eager, arrival, steps, apis, wmode: rng.below(3) as u8, salt: rng.next_u64(), delays: rng.chance(2, 3) }
     }
 
     // ------------------------------------------------------------------ stderr silencing
@@ -1447,6 +2281,10 @@ mod imp {
         max_scn_ms: u64,
         /// replay: (family, index) of the one scenario to run
         only: Option<(&'static str, u64)>,
+        /// dedicated AsyncClient connection of the forward scenarios (they reuse completed ids on purpose)
+        fwd_conn: Option<Conn>,
+        fwd_anomalies: u64,
+        fwd_enough: bool,
     }
 
     impl<'a> Stage<'a> {
@@ -1470,6 +2308,113 @@ mod imp {
                 }
                 Some(_) => true,
             }
+        }
+
+        /// Run and judge one forward scenario. Returns false when the stage must stop.
+        fn exec_fwd(&mut self, fs: &FScn) -> bool {
+            match self.only {
+                None => self.exec_fwd_one(fs),
+                Some(("forward", index)) if index == fs.index => {
+                    let mut ok = self.exec_fwd_one(fs);
+                    for r in 1..400u64 {
+                        if !ok {
+                            break;
+                        }
+                        let mut again = fs.clone();
+                        again.salt = mix(fs.salt ^ r);
+                        again.delays = true;
+                        ok = self.exec_fwd_one(&again);
+                    }
+                    false
+                }
+                Some(_) => true,
+            }
+        }
+
+        fn exec_fwd_one(&mut self, fs: &FScn) -> bool {
+            if self.stop.is_some() {
+                return false;
+            }
+            if Instant::now() >= self.deadline {
+                self.stop = Some("stage time budget used up".into());
+                return false;
+            }
+            if self.fwd_conn.as_ref().map(|c| c.scenarios >= 200).unwrap_or(false) {
+                drop_conn(self.fwd_conn.take().unwrap(), self.ctx.rt);
+                self.rep.count("connections_closed_after_reuse", 1);
+            }
+            if self.fwd_conn.is_none() {
+                match connect_retry(Kind::A, self.ctx.rt) {
+                    Ok(c) => {
+                        self.rep.count("connections_async_forward", 1);
+                        self.fwd_conn = Some(c);
+                    }
+                    Err(e) => {
+                        self.connect_failures += 1;
+                        self.rep.inconclusive(format!("could not set up an async connection for the forward scenarios: {e}"));
+                        if self.connect_failures >= 3 {
+                            self.stop = Some("repeated connection set-up failures".into());
+                        }
+                        return self.stop.is_none();
+                    }
+                }
+            }
+            let mut conn = self.fwd_conn.take().unwrap();
+            let t0 = Instant::now();
+            self.hb.reset();
+            let h = run_fwd(&mut conn, &mut self.ctx, fs);
+            let stall = self.hb.max_gap_ms();
+            self.max_scn_ms = self.max_scn_ms.max(t0.elapsed().as_millis() as u64);
+            let v = judge_fwd(&h, stall);
+
+            let rep = &mut self.rep;
+            rep.eval();
+            rep.count("scenarios_family_forward", 1);
+            rep.count("forward_scn_request_frames_seen_by_fake_server", h.wire.len() as u64);
+            rep.count("forward_scn_frames_sent_by_fake_server", h.sent.len() as u64 + 1);
+            rep.count("forward_scn_forwards_issued", h.ops.iter().filter(|o| o.wave >= 2).count() as u64);
+            rep.count("forward_scn_forwards_reusing_inflight_id", h.ops.iter().filter(|o| o.class == OpClass::Clash).count() as u64);
+            rep.count("forward_scn_forwards_reusing_inflight_forward_id", h.ops.iter().filter(|o| o.class == OpClass::Clash && o.target.map(|t| h.ops[t].wave == 2).unwrap_or(false)).count() as u64);
+            rep.count("probe_events_recorded", h.events.len() as u64);
+            for (k, n) in &v.counts {
+                rep.count(k, *n);
+            }
+            let op_of_id: HashMap<u64, usize> = h.ops.iter().enumerate().rev().filter_map(|(i, o)| Some((o.id?, i))).collect();
+            let rel: Vec<(u8, u64)> = h.events.iter().map(|e| (e.0, op_of_id.get(&e.1).map(|o| *o as u64).unwrap_or(if e.1 >= SENT_BASE { 10_000 } else { 20_000 }))).collect();
+            let full = hash_of(&rel);
+            self.il_full.insert(full);
+            self.il_by_kind.entry(Kind::A).or_default().insert(full);
+            self.scripts.insert(hash_of(&("forward", fs.identity())));
+            rep.distinct(&("forward-script", fs.identity()));
+            rep.distinct(&("forward-interleaving", full));
+            if rep.samples.len() < rep.max_samples && fs.index % 97 == 5 {
+                rep.sample(json!({
+                    "scenario": fs.to_json(self.seed),
+                    "ops": h.ops.iter().enumerate().map(|(i, o)| json!({"op": i, "what": o.desc, "id": o.id, "frames_on_wire": h.wire.iter().filter(|w| w.op == Some(i)).count(), "outcome": show_res(&h.outs[i])})).collect::<Vec<_>>(),
+                }));
+            }
+            for (sig, detail) in v.violations {
+                let detail = format!("[forward #{}] {detail}", fs.index);
+                self.rep.violation(sig, detail, fs.to_json(self.seed));
+            }
+            for i in v.inconclusive {
+                self.rep.inconclusive(i);
+            }
+            if v.anomalies || matches!(conn.srv, Srv::Closed) {
+                self.rep.count("connections_abandoned_after_anomaly", 1);
+                drop_conn(conn, self.ctx.rt);
+                self.fwd_anomalies += 1;
+            } else {
+                self.fwd_conn = Some(conn);
+            }
+            if self.fwd_anomalies >= 6 {
+                // enough witnesses; every further anomalous scenario may cost a full window
+                self.fwd_enough = true;
+            }
+            if self.rep.violations.len() >= 12 {
+                self.stop = Some("twelve distinct violations recorded; stopping early".into());
+            }
+            self.stop.is_none() && !self.fwd_enough
         }
 
         fn exec_one(&mut self, scn: &Scn) -> bool {
@@ -1552,7 +2497,7 @@ mod imp {
                 rep.count("scenarios_n_above_6", 1);
             }
             let prev_max = rep.get_count("max_concurrent_calls");
-            if scn.n as u64 > prev_max {
+            if scn.n as u64 > prev_max && scn.family != "bigbatch" {
                 rep.set("max_concurrent_calls", json!(scn.n));
             }
             let (full, caller) = interleaving_hashes(&hist);
@@ -1604,7 +2549,7 @@ mod imp {
              N=64 with unknown-id (zero, huge, future, past) frames, duplicated responses, eager replies, split/coalesced writes and, \
              WebSocket only, notify frames reusing in-flight ids with a subscriber attached; seeded delays at the verif-hooks probes; \
              oracle: returned token/id == own, batch positional, ids distinct per connection, subscriber gets exactly the notify \
-             frames in order; distinct = reply scripts + probe-order interleavings",
+             frames in order; batches of 65..300 requests (more than the blocking client's 64 batch workers) against an              arrival-driven server, positional alignment and result count; AsyncClient::forward_message* with caller-chosen ids:              an id equal to an in-flight id is refused, writes nothing and leaves the in-flight call its own response, unused and              completed ids work, in-flight ids on the wire stay distinct; distinct = reply scripts + probe-order interleavings",
         );
         let rt = match tokio::runtime::Builder::new_multi_thread().worker_threads(4).enable_all().thread_name("c04-rt").build() {
             Ok(rt) => rt,
@@ -1622,7 +2567,7 @@ mod imp {
 
         let mut st = Stage {
             rep,
-            ctx: Ctx { rt: &rt, pool: &pool, seed: args.seed, sentinel_ctr: 0, notify_seq: 0, nonce: args.seed.wrapping_mul(0x9E37_79B9_7F4A_7C15) },
+            ctx: Ctx { rt: &rt, pool: &pool, seed: args.seed, sentinel_ctr: 0, notify_seq: 0, nonce: args.seed.wrapping_mul(0x9E37_79B9_7F4A_7C15), fresh_ctr: 0 },
             conns: HashMap::new(),
             hb: Heartbeat::start(),
             il_full: HashSet::new(),
@@ -1636,6 +2581,9 @@ mod imp {
             seed: args.seed,
             max_scn_ms: 0,
             only: None,
+            fwd_conn: None,
+            fwd_anomalies: 0,
+            fwd_enough: false,
         };
         // --replay <file with the replay JSON of a violation>: regenerate the same scenarios from the seed and
         // execute only the recorded one, 400 times with different delay salts
@@ -1643,7 +2591,7 @@ mod imp {
             let v: Option<Value> = std::fs::read_to_string(path).ok().and_then(|t| serde_json::from_str(&t).ok());
             match v.as_ref().and_then(|v| Some((v.get("family")?.as_str()?.to_string(), v.get("index")?.as_u64()?, v.get("seed")?.as_u64()?))) {
                 Some((fam, idx, seed)) if seed == args.seed => {
-                    let fam = ["perm6", "perm6+extras", "random"].into_iter().find(|f| *f == fam).unwrap_or("random");
+                    let fam = ["perm6", "perm6+extras", "random", "bigbatch", "forward"].into_iter().find(|f| *f == fam).unwrap_or("random");
                     st.only = Some((fam, idx));
                     st.rep.set("replay_of", json!({"family": fam, "index": idx}));
                 }
@@ -1656,6 +2604,65 @@ mod imp {
 
         // replay of one recorded scenario family/index is done by re-running with the same seed: scenario
         // generation is a pure function of (seed, family, index)
+
+        // (0a) batches larger than the blocking client's worker pool: positional alignment when a worker handles
+        // several requests; the same sizes on the async and the WebSocket client
+        let t_family = Instant::now();
+        {
+            let mut r = Rng::new(args.seed ^ 0xB16_BA7C);
+            let mut plan: Vec<(Kind, usize)> = vec![];
+            let cap = blocking_batch_cap();
+            for n in [cap.saturating_sub(1).max(2), cap] {
+                plan.push((Kind::B, n)); // controls: at most as many requests as workers
+            }
+            for kind in [Kind::B, Kind::A, Kind::W] {
+                for n in BIG_BATCH_SIZES {
+                    plan.push((kind, n));
+                }
+            }
+            let extra = args.budget(20, 240);
+            for i in 0..extra {
+                let kind = match i % 4 {
+                    0 | 1 => Kind::B,
+                    2 => Kind::A,
+                    _ => Kind::W,
+                };
+                plan.push((kind, cap + 1 + r.usize_below(BIG_BATCH_MAX - cap)));
+            }
+            for (kind, n) in plan {
+                index += 1;
+                let scn = bigbatch_scn(index, kind, n, &mut r);
+                if !st.exec(&scn) {
+                    break;
+                }
+                if n > cap {
+                    st.rep.count(&format!("batch_scenarios_above_blocking_pool_{}", kind.name()), 1);
+                    let prev = st.rep.get_count("max_batch_requests");
+                    if n as u64 > prev {
+                        st.rep.set("max_batch_requests", json!(n));
+                    }
+                }
+            }
+        }
+
+        // (0b) caller-chosen ids (AsyncClient::forward_message*): colliding with in-flight ids, unused, completed
+        st.rep.set("wall_ms_family_bigbatch", json!(t_family.elapsed().as_millis() as u64));
+        let t_family = Instant::now();
+        {
+            let mut r = Rng::new(args.seed ^ 0xF0_12AD);
+            let n_fwd = args.budget(400, 6000);
+            for _ in 0..n_fwd {
+                index += 1;
+                let fs = random_fscn(index, &mut r);
+                if !st.exec_fwd(&fs) {
+                    break;
+                }
+            }
+            if let Some(c) = st.fwd_conn.take() {
+                drop_conn(c, &rt);
+            }
+        }
+        st.rep.set("wall_ms_family_forward", json!(t_family.elapsed().as_millis() as u64));
 
         // (a) exhaustive: every reply order for 6 concurrent calls, each client kind, calls and batch
         let reps = args.budget(2, 20).max(1);
@@ -1674,7 +2681,7 @@ mod imp {
                             let extras = r.usize_below(4);
                             add_extras(&mut steps, kind, &[0, 1, 2, 3, 4, 5], extras, &mut r);
                         }
-                        let scn = Scn { family: if rep_i == 0 { "perm6" } else { "perm6+extras" }, index, kind, mode, n: 6, eager, steps, apis, wmode, salt: r.next_u64(), delays: rep_i > 0 || r.coin() };
+                        let scn = Scn { family: if rep_i == 0 { "perm6" } else { "perm6+extras" }, index, kind, mode, n: 6, eager, arrival: None, steps, apis, wmode, salt: r.next_u64(), delays: rep_i > 0 || r.coin() };
                         if !st.exec(&scn) {
                             break 'outer;
                         }
@@ -1719,6 +2726,8 @@ mod imp {
         rep.set("calls_timed_out", json!(timeouts));
         rep.set("slowest_scenario_ms", json!(max_scn_ms));
         rep.set("blocking_batch_worker_cap", json!(blocking_batch_cap()));
+        rep.set("arrival_driven_reply_windows", json!(ARRIVAL_WINDOWS.load(Ordering::Relaxed)));
+        rep.set("arrival_driven_windows_flushed_on_quiet", json!(ARRIVAL_QUIET_FLUSHES.load(Ordering::Relaxed)));
         rep.set("harness_bind_fallbacks_other_loopback_address", json!(BIND_FALLBACKS.load(Ordering::Relaxed)));
         rep.set("harness_connect_retries", json!(CONNECT_RETRIES.load(Ordering::Relaxed)));
         if let Some(p) = take_last_panic() {
